@@ -60,6 +60,15 @@ func (m *Module) liftCell(fn *ssa.Function, cell *ssa.Alloc) {
 	}
 	kills := m.cellKillers(fn, cell)
 	elem := cell.Type().Underlying().(*types.Pointer).Elem()
+	// a variable that no function literal captures is not changed by deferred calls
+	captured := false
+	if refs := cell.Referrers(); refs != nil {
+		for _, r := range *refs {
+			if _, ok := r.(*ssa.MakeClosure); ok {
+				captured = true
+			}
+		}
+	}
 	if kills != nil {
 		// after a call that can change the variable its value is a fresh load,
 		// which the merges below can then name
@@ -67,6 +76,7 @@ func (m *Module) liftCell(fn *ssa.Function, cell *ssa.Alloc) {
 		for _, b := range fn.Blocks {
 			for i, ins := range b.Instrs {
 				_, isRD := ins.(*ssa.RunDefers)
+				isRD = isRD && captured
 				if !kills[ins] && !isRD {
 					continue
 				}
@@ -113,8 +123,12 @@ func (m *Module) liftCell(fn *ssa.Function, cell *ssa.Alloc) {
 		// a merge placeholder of another block flowing through unchanged stays that placeholder
 		return acc
 	}
+	var stopAt ssa.Instruction
 	transfer := func(b *ssa.BasicBlock, cur cellDef, apply func(ld *ssa.UnOp, d cellDef)) cellDef {
 		for _, ins := range b.Instrs {
+			if stopAt != nil && ins == stopAt {
+				return cur
+			}
 			switch x := ins.(type) {
 			case *ssa.Alloc:
 				if x == cell {
@@ -139,30 +153,66 @@ func (m *Module) liftCell(fn *ssa.Function, cell *ssa.Alloc) {
 					cur = cellDef{kind: 2}
 				}
 			case *ssa.RunDefers:
-				cur = cellDef{kind: 2}
+				if captured {
+					cur = cellDef{kind: 2}
+				}
 			}
 		}
 		return cur
 	}
-	order := fn.DomPreorder()
-	for iter := 0; iter < 20; iter++ {
-		changed := false
-		for _, b := range order {
-			i := meet(b)
-			if b == fn.Blocks[0] {
-				i = cellDef{kind: 2}
+	solve := func(f *ssa.Function, entry cellDef) ([]*ssa.BasicBlock, bool) {
+		order := f.DomPreorder()
+		for iter := 0; iter < 20; iter++ {
+			changed := false
+			for _, b := range order {
+				i := meet(b)
+				if b == f.Blocks[0] {
+					i = entry
+				}
+				o := transfer(b, i, nil)
+				if !same(in[b], i) || !same(out[b], o) {
+					in[b], out[b] = i, o
+					changed = true
+				}
 			}
-			o := transfer(b, i, nil)
-			if !same(in[b], i) || !same(out[b], o) {
-				in[b], out[b] = i, o
-				changed = true
+			if !changed {
+				return order, true
 			}
 		}
-		if !changed {
-			break
+		return nil, false // did not stabilise: leave the cell alone
+	}
+	order, ok := solve(fn, cellDef{kind: 2})
+	if !ok {
+		return
+	}
+	// a deferred function literal runs where the function's deferred calls run:
+	// its body starts with the value the variable has there
+	var rds []ssa.Instruction
+	for _, b := range fn.Blocks {
+		for _, ins := range b.Instrs {
+			if _, isRD := ins.(*ssa.RunDefers); isRD {
+				rds = append(rds, ins)
+			}
 		}
-		if iter == 19 {
-			return // did not stabilise: leave the cell alone
+	}
+	if len(rds) == 1 {
+		stopAt = rds[0]
+		atRD := transfer(rds[0].Block(), in[rds[0].Block()], nil)
+		stopAt = nil
+		ncl := 0
+		for cl, d := range m.deferSite {
+			if d.Parent() == fn {
+				ncl++
+			}
+			_ = cl
+		}
+		for cl, d := range m.deferSite {
+			if d.Parent() != fn || ncl != 1 {
+				continue // several deferred literals: the later ones see the earlier ones' writes
+			}
+			if o, ok := solve(cl, atRD); ok {
+				order = append(order, o...)
+			}
 		}
 	}
 	// materialise the phis that loads need
